@@ -29,7 +29,7 @@ CLAIMED['C08'] = dict(
          'real TCPRequestHandler connections racing poll threads and extra driver tasks at lock operations and at '
          'line events of dispatcher.py/modulebase.py; each connection\'s line stream is judged against the ground-truth '
          'history of the parameter cache (snapshot completeness and currency, last message = cache at quiescence, '
-         'optionally a client which stops reading for seconds behind a small receive buffer while updates flow (a send of the node may time out: the connection is then either served or closed), '
+         'optionally failing application callbacks on the parameters (functions, partial objects, callable instances), optionally a client which stops reading for seconds behind a small receive buffer while updates flow (a send of the node may time out: the connection is then either served or closed), '
          'no cache state skipped while a parameter stays in scope, nothing after the scope-ending reply, no cross-talk, '
          'nothing left in the dispatcher of a connection whose handler has finished; a run which cannot end because '
          'a request is never answered is a violation).',
@@ -40,13 +40,13 @@ CLAIMED['C08'] = dict(
 CLAIMED['C05'] = dict(
     level='exploration',
     text='Seeded search over driver-side histories (reads ok/raising/invalid, writes, assignments equal/different/'
-         'invalid (also the driver\'s own mutable receive buffer assigned to a blob), values stamped by a coarse device clock, explicit and repeated error announcements, gaps below/above '
+         'invalid (also the driver\'s own mutable receive buffer assigned to a blob; focus: one task re-assigning the value it finds while another one changes the same parameter at the same instant), values stamped by a coarse device clock, explicit and repeated error announcements, gaps below/above '
          'the suppression window) from 1..3 '
          'tasks against generated parameters of all datatypes (64 bit integers, strings with lone surrogates as '
          'surrogateescape decoding gives them) and all omit_unchanged_within/update_unchanged settings. Judged (i) against a register model fed from the operations and (ii) by replaying the byte stream '
          'of every activated connection (one activated on the quiet node, 0..2 more from the start, optionally one '
          'activating in the middle of the history; optionally application callbacks on the parameters which fail now '
-         'and then) against the ground-truth cache history (order, no phantom state, '
+         'and then, registered as functions, partial objects or callable instances) against the ground-truth cache history (order, no phantom state, '
          'no state skipped, final = cache).',
     note='Trusted: simulation kernel, fake driver, register model (value/error effect per operation), cache history '
          'from parameter callbacks. With several tasks the final entry must match an operation that may have been last.',
@@ -75,7 +75,7 @@ CLAIMED['C04'] = dict(
          'payloads from the boundary catalogue of the described datainfo (incl. NaN/Infinity), while limits are moved '
          '(by wire requests and, in part of the runs, by a driver-side thread through the write methods of the limit '
          'parameters) and pollers run; in part of the runs a struct parameter is brought into an error state (failing '
-         'reads, read requests) between partial changes of it. '
+         'reads, read requests) between partial changes of it; a rider module with a StructParam, a combined write method and a check hook on the struct gets requests addressed to the struct, to a part of it and to single member parameters (judged against a small model). '
          'Every driver call in the recorded log must be attributable to exactly one request that an independent '
          'three-valued reference validator does not reject, with the canonical value, within the limits in force; '
          'every must-reject request gets an error of a fitting class and leaves cache and update stream untouched.',
@@ -92,7 +92,7 @@ CLAIMED['C11'] = dict(
          'request) against a scripted SECoP peer (reply order and delay up to beyond the time-out, error replies, '
          'updates, streamed updates of an active node, unsolicited replies, garbage, half lines, replies written in two '
          'pieces with a pause, a peer which takes only 12..24 bytes at a time) with peer '
-         'close/reset/black hole, refused reconnects '
+         'close/reset (shutdown() of a reset socket fails with ENOTCONN as on Linux)/black hole, refused reconnects '
          'and user disconnect at arbitrary points, pre-empting the real SecopClient/AsynTcp threads at lock '
          'operations and line events of client/__init__.py. Checked per caller: own reply or error, no duplicate '
          'delivery, wait bounded, no reconnect by the client after a shutdown by the user, no request left untransmitted once every request with the same key was answered, '
@@ -112,7 +112,7 @@ CLAIMED['C12'] = dict(
          'the rx thread by sync markers, optionally a restart of the peer with another description (module added, '
          'accessible changed) which the client meets by reconnecting on its own; (e2e) real client <-> real node with recording drivers, '
          'setParameter/getParameter/execCommand over generated parameters of every datatype (incl. integers beyond '
-         '2**53), an accepting side which takes only 16..40 bytes at a time, structs with optional members left out at any depth, two concurrent writers through one client; (proxy) the same through '
+         '2**53), an accepting side which takes only 16..40 bytes at a time, writes which the node refuses (read-only parameters: the cache must keep what the last message said), structs with optional members left out at any depth, two concurrent writers through one client; (proxy) the same through '
          'a real node of frappy.proxy modules, with a connection drop; in both while the drivers of the node publish '
          'values of their own (second sender on the connection). Cache = import of the last message, timestamp '
          'never in the future, each callback exactly once per message in order, driver argument = caller value, '
@@ -162,7 +162,7 @@ CLAIMED['C19'] = dict(
     level='exploration',
     text='Seeded search over equipment ids / descriptions (ASCII, JSON escapes, multi-byte, lengths around the 508 byte '
          'budget), interface lists and datagram sequences from several peers (valid requests, other JSON values, invalid '
-         'UTF-8, empty, oversized) with loss, duplication, reordering and truncation, against the real UDPListener '
+         'UTF-8 incl. the request text in UTF-16/UTF-32 or with a byte order mark, empty, oversized) with loss, duplication, reordering and truncation, against the real UDPListener '
          'running in its own task on a simulated datagram socket (part of the cases with an identity of exactly the '
          'budget +- 2 bytes). Every datagram sent must be a UTF-8 JSON object <= 508 '
          'bytes with the identity, a configured tcp port and a character-boundary prefix of the description; disabled '
@@ -171,7 +171,7 @@ CLAIMED['C19'] = dict(
          'simulated network first (ports held by another listener for a while or for ever, real bind retries of '
          'TCPServer), and every announced port must be one the node really accepts connections on and answers '
          '*IDN? on - at the moment the datagram leaves, also while discovery requests keep arriving during the shutdown '
-         'of the node (log of when each listening port is open), and after a restart of the node.',
+         'of the node and during a restart (broadcasts reach every socket bound to the port; log of when each listening port is open), and after a restart of the node.',
     note='Trusted: simulated UDP socket, simulated socketserver base class, constant firmware version. The budgeting clause is a pure function of the '
          'strings; it is checked as a rider of the simulated runs.',
     design='6/C19')
@@ -179,7 +179,7 @@ CLAIMED['C19'] = dict(
 CLAIMED['C20'] = dict(
     level='exploration',
     text='Seeded search in two worlds: (routing) a real node with 1..3 wire connections issuing logging <module|.> '
-         '<level> (valid/invalid), *IDN?, ping, close while emitter tasks, poll threads and request handlers log records '
+         '<level> (valid/invalid), *IDN?, ping, activate/deactivate, close while emitter tasks, poll threads and request handlers log records '
          'of all levels carrying unique tokens - each connection must receive a record exactly when its level for that '
          'module admits it (records emitted inside a request window are DONTCARE), nothing after off/IDN/close, no '
          'cross-talk, a log call never raises; (rotation) the real LogfileHandler over a scratch directory with dated, '
@@ -199,7 +199,7 @@ CLAIMED['C14'] = dict(
          'events of statemachine.py). Trace invariants: cycle never raises and is bounded, init flag exactly on the first '
          'call after each transition, every cleanup at most once, a cleanup sequence neither interrupted nor abandoned, '
          'starts take effect in issue order, the last stop/start wins with exactly its attributes once things are quiet. '
-         'Second world: a HasStates Drivable in a real node driven over the wire (a stop accepted last - also during a stop cleanup of several cycles with a new start waiting - is not followed by a complete run; busy status from the acknowledged '
+         'Second world: a HasStates Drivable in a real node driven over the wire (a stop accepted last - also during a stop cleanup of several cycles with a new start waiting - is not followed by a complete run; a run which ends while a start is waiting hands over with a busy status; busy status from the acknowledged '
          'change until the run ends, final/stopped/error status afterwards).',
     note='Trusted: simulation kernel, harness state functions, the transition hook as observation point. Module world: '
          'busy/final-status rules are judged for runs started on an idle machine without overlapping requests. Known '
@@ -232,7 +232,7 @@ CLAIMED['C10'] = dict(
          'poll of that module; start values, overridden limits/unit/visibility/readonly/group must show in cache and '
          'description and limits must be used by later range checks (wire probes); with 0..3 injected errors (unknown '
          'name, unknown parameter property, wrong type, missing mandatory property, required value missing, inverted '
-         'limits, bad module property, a value longer than the maxchars/maxbytes/maxlen given with it; two modules of one class each with its own configuration; an optional parameter of a base class which the class of the module does not '
+         'limits, bad module property, a value longer than the maxchars/maxbytes/maxlen given with it; the unit of the module given in the configuration with units of nested struct/tuple members relative to it; two modules of one class each with its own configuration; an optional parameter of a base class which the class of the module does not '
          'implement) start-up must end with the error report naming every failing module and no '
          'configured value may have reached any driver. In a quarter of the runs the node is restarted on the same '
          'loaded configuration (as Server.run does after Server.restart) and the second generation is judged.',
@@ -245,7 +245,7 @@ CLAIMED['C18'] = dict(
     level='exploration',
     text='Seeded search over generated layouts (StructParam with combined or member access methods, FloatEnumParam label '
          'sets, limit parameters min/max/limits (incl. limits of exactly zero), 1..3 HasOutputModule controllers on one HasControlledBy output, '
-         'optionally a second output with a controller of its own) and '
+         'optionally a second output with a controller of its own; limit writes which take time, with a driver-side write of the limited value meanwhile) and '
          'operation histories issued alternately by a wire client and by the driver while the poll thread runs and up to two other clients subscribe and leave all the time, with '
          'one-shot hardware faults inside struct accesses and, where frappy establishes consistency inside the update '
          'lock, a concurrent driver-side assignment. After '
@@ -264,7 +264,7 @@ CLAIMED['C06'] = dict(
     level='exploration',
     text='Seeded search over nodes built from generated module classes (all datatypes, readonly/constant/export flags, '
          'commands, unexported modules, constants of every datatype declared in the class or given in the configuration '
-         '(also non-finite), the export of single parameters given in the configuration, limits learnt in startModule, a module configured with an uri whose communicator the node creates by itself) and from the shipped hardware-free configurations '
+         '(also non-finite), the export of single parameters given in the configuration, limits learnt in startModule, a module configured with an uri whose communicator the node creates by itself, sections stating the automatic properties interface_classes/features/implementation of another class) and from the shipped hardware-free configurations '
          '(demo, sim, cryo, test, sim_mlz_htf02, sim_mlz_cci3he1, ls370sim; their threads, sleeps and random numbers run '
          'behind the seams), probed by a describing client over the wire while poll threads and a second client run '
          'and the driver now and then assigns a reading the datatype refuses: '
